@@ -68,6 +68,10 @@ def scenarios(c):
                 for chk in (0, 1):
                     if alg != 'h' and (k > 3 or sz == 100) and c.tier != 'thorough': continue
                     S.append({'kind': 'sumfault', 'alg': alg, 'content': list(pattern(rng, sz, 'rand')), 'k': k, 'check': chk}); c.distinct([('sumfault', alg, sz, k, chk)])
+    # ... and at the k-th read of the checksum list in check mode (120 entries = three stdio buffers)
+    for alg in ('h', 'y') if c.tier != 'thorough' else 'haxy':
+        for k in (1, 2, 3, 4, 9):
+            S.append({'kind': 'sumlistfault', 'alg': alg, 'nfiles': 120, 'k': k}); c.distinct([('sumlistfault', alg, k)])
     return S
 
 def run(c):
@@ -80,7 +84,7 @@ def run(c):
     S = scenarios(c)
     rc, out = sh(['strace', '-o', '/dev/null', '-e', 'trace=read', 'true'], timeout=30)
     if rc != 0:      # ptrace not available here: the stdio read-fault scenarios cannot be run (said so in the evidence)
-        S = [s for s in S if s['kind'] != 'sumfault']
+        S = [s for s in S if s['kind'] not in ('sumfault', 'sumlistfault')]
         c.assumptions.append('strace could not attach in this environment: asconsum read-error scenarios were skipped in this run')
     c.tv_tools(S, 'rel', 'tools', per_shard=30)
     c.cov['exhaustive'] = True
